@@ -52,7 +52,7 @@ def assembleNoInc (ss0 : List Stmt) : Outcome Assembly :=
         | .diverged => .diverged
 
 theorem assemble_eq_noInc {fs : Files} {lines : List Str} {parsed ss0 : List Stmt}
-    (hp : parseLines lines = .ok parsed) (he : expand fs 64 [] parsed = .ok ss0) :
+    (hp : parseLines lines = .ok parsed) (he : expand fs (includeFuel fs) [] parsed = .ok ss0) :
     assemble fs lines = assembleNoInc ss0 := by
   unfold assemble assembleNoInc
   rw [hp]; dsimp only; rw [he]
@@ -88,7 +88,7 @@ theorem progCheck_sound {lines : List Str} {check : Assembly → Bool} (h : prog
     obtain ⟨h1, h2⟩ := h
     split at h2
     · rename_i a ha
-      exact ⟨a, by rw [assemble_eq_noInc hp (expand_noInc fs 63 [] p h1), ha], h2⟩
+      exact ⟨a, by rw [assemble_eq_noInc hp (expand_noInc fs fs.length [] p h1), ha], h2⟩
     · cases h2
   · cases h
 
@@ -115,7 +115,7 @@ theorem progDiag_sound {lines : List Str} (h : progDiag lines = true) (fs : File
     obtain ⟨h1, h2⟩ := h
     split at h2
     · rename_i ha
-      rw [assemble_eq_noInc hp (expand_noInc fs 63 [] p h1), ha]
+      rw [assemble_eq_noInc hp (expand_noInc fs fs.length [] p h1), ha]
     · cases h2
   · rename_i hp
     unfold assemble
